@@ -207,7 +207,9 @@ def bundled_shard(args):
                                                                    "code": nb}, exp, obs)
     # pairs that differ from a listed one only by case or white-space are NOT listed
     for key in keys[:: max(1, len(keys) // 40)]:
-        for cc2, k2 in ((country.lower(), key), (country, key.lower()), (" " + country, key),
+        for cc2, k2 in ((country[:1], country[1:] + key), (country + key[:1], key[1:]), ("", country + key),
+                        (country + key, ""),
+                        (country.lower(), key), (country, key.lower()), (" " + country, key),
                         (country, key[:1] + " " + key[1:]), (country, key + "\n"), (country + " ", key)):
             if (cc2, k2) in index or (cc2, k2) == (country, key):
                 continue
@@ -283,9 +285,45 @@ def synthetic_shard(args):
     return part.done()
 
 
+def foreign_shard(args):
+    """For every country of the IBAN table: bank codes listed for OTHER countries (same lookup-field
+    width) are unlisted here - an IBAN of this country carrying such a code has no bank and no BIC
+    unless the pair itself is listed."""
+    _, country, tier = args
+    part = par.Part()
+    index = lookup.by_key()
+    c = reg.countries()[country]
+    if not c.positions:
+        return part.done()
+    spans = [c.span(comp) for comp in c.lookup_components]
+    if any(s is None for s in spans):
+        return part.done()
+    width = sum(s[1] - s[0] for s in spans)
+    by_cc: dict = {}
+    for (cc, code) in index:
+        if cc != country and len(code) == width:
+            by_cc.setdefault(cc, []).append(code)
+    for cc in sorted(by_cc):
+        codes = sorted(by_cc[cc])
+        for code in codes[:: max(1, len(codes) // (6 if tier == "quick" else 60))]:
+            if build_iban(country, code) is None:
+                continue
+            part.count(("foreign-key", country, cc, code))
+            for sig, exp, obs in check_key(index, country, code):
+                part.violation(sig + " [code listed for another country]", {"kind": "c12key", "country": country,
+                                                                            "code": code}, exp, obs)
+            for sig, exp, obs in check_iban(index, country, code) or []:
+                part.violation(sig + " [code listed for another country]", {"kind": "c12iban", "country": country,
+                                                                            "code": code}, exp, obs)
+    part.stat("countries_probed_with_foreign_codes")
+    return part.done()
+
+
 def shard(args):
     if args[0] == "bundled":
         return bundled_shard(args)
+    if args[0] == "foreign":
+        return foreign_shard(args)
     before = sandbox.deep_snapshot() if args[1] == 0 else None
     out = synthetic_shard(args)
     if before is not None:
@@ -309,6 +347,7 @@ def main(tier: str) -> int:
     run = report.Run(PID, tier, "exploration", RULE)
     countries = sorted({k[0] for k in lookup.by_key()} | set(lookup.by_country()))
     shards = [("bundled", c, tier) for c in countries]
+    shards += [("foreign", c, tier) for c in sorted(reg.countries())]
     # empty registry and the empty-list case
     shards += [("syn", i, tier) for i in range(len(entry_alphabet()))]
     par.run_shards(run, shard, shards)
